@@ -212,16 +212,13 @@ impl BitWrite for BitBuffer {
 
     #[inline]
     fn write_bits_with_offset(&mut self, src: &[u8], src_bit_offset: usize) -> Result<(), Error> {
-        self.with_additional_bits(
-            (src.len() * BYTE_LEN).saturating_sub(src_bit_offset),
-            |b| {
-                BitWrite::write_bits_with_offset(
-                    &mut (&mut b.buffer[..], &mut b.write_position),
-                    src,
-                    src_bit_offset,
-                )
-            },
-        )
+        self.with_additional_bits((src.len() * BYTE_LEN).saturating_sub(src_bit_offset), |b| {
+            BitWrite::write_bits_with_offset(
+                &mut (&mut b.buffer[..], &mut b.write_position),
+                src,
+                src_bit_offset,
+            )
+        })
     }
 
     #[inline]
